@@ -42,7 +42,7 @@ TEXT = "abcXYZ019 _-.()äé中\U0001F98A"
 
 
 def budget(tier):
-    return 8000 if tier == "quick" else 80000
+    return 16000 if tier == "quick" else 80000
 
 
 def scratch_dir():
